@@ -57,7 +57,7 @@ def run(ctx):
     armed_t, unarmed_t = table["armed"], table["unarmed"]
 
     # ---- positive controls ------------------------------------------------
-    fx = ctx.fixture_db(["rcap", "loops"])
+    fx = ctx.fixture_db(["rcap", "loops", "fmtlen"])
     from driver import Report
     frep = Report("fixture")
     for f in fx.tu("rcap").main_functions():
@@ -74,7 +74,13 @@ def run(ctx):
     st = {(o[0], o[1].split("|")[0].split("::")[1]): o[2] for o in frep.obligations}
     if st.get(("FXL", "spin")) != "VIOLATED" or st.get(("FXE", "bad")) != "VIOLATED" or st.get(("FXL", "good")) != "held":
         raise AnalysisBroken("R-LOOP positive control failed: %s" % st)
-    rep.extra["positive_controls"] = "fixtures/rcap.c (3 bad + 3 good twins), fixtures/loops.c (divergent, equality-exit, good): all as expected"
+    from rules_common import check_snprintf_lengths as _csl
+    frep = Report("fixture")
+    _csl(fx, fx.tu("fmtlen").main_functions(), frep, "FXF")
+    st = {o[1].split("|")[0].split("::")[1]: o[2] for o in frep.obligations}
+    if st != {"fmt_bad": "VIOLATED", "fmt_good": "held"}:
+        raise AnalysisBroken("snprintf-length positive control failed: %s" % st)
+    rep.extra["positive_controls"] = "fixtures/fmtlen.c (bad, clamped, strlen twins); fixtures/rcap.c (3 bad + 3 good twins), fixtures/loops.c (divergent, equality-exit, good): all as expected"
 
     libfuncs = [f for f in db.all_functions() if f.relfile.startswith("orc/")]
     if len(libfuncs) < 1500:
@@ -265,6 +271,12 @@ def d2(db, rep):
         rep.check(ok, "D2c-NONZERO-ON-ERROR", w, "return %s" % rv,
                   "a zero result is rewritten to a non-success code before the error exit returns",
                   "the error exit can return 0 (ORC_COMPILE_RESULT_OK): `if (%s == 0) %s = <failure>` is missing" % (rv, rv), line=r.line)
+    # D1c: formatted-output lengths
+    from rules_common import check_snprintf_lengths
+    nfmt = check_snprintf_lengths(db, [f for f in db.all_functions() if f.relfile.startswith("orc/") or f.relfile.startswith("tools/")], rep, "D1c-FMT-LENGTH")
+    rep.extra["snprintf_result_uses_judged"] = nfmt
+    from rules_common import check_code_exec_nonnull
+    check_code_exec_nonnull(db, rep, "D2h-FALLBACK-NONNULL")
     # (f) the flags that force the fallback are tested before code memory is requested
     alloc = [c for c in f.calls("orc_code_allocate_codemem")]
     if not alloc:
